@@ -8,7 +8,7 @@ Record case := K {
   o_boola : bool; o_dura : Z; o_mid2a : Z;
   o_and : seg; o_or : seg; o_xor : option seg;
   o_inter : bool; o_inter_ba : bool; o_in : bool; o_eq : bool; o_lt : bool; o_hasheq : bool;
-  o_ov1 : bool; o_ov2 : bool;
+  o_ov1 : bool; o_ov2 : bool; o_ovq : list (Z * bool);   (* overlaps(q / 4) for quarter ticks q *)
   o_and_l : seg; o_and_r : seg; o_or_l : seg; o_or_r : seg;
   o_sorted : list seg }.
 
@@ -51,6 +51,7 @@ Definition check (c : case) : nat :=
     && (if seqb a b then o_hasheq c else true)
     && Bool.eqb (o_ov1 c) (overlaps a (st b))
     && Bool.eqb (o_ov2 c) (overlaps a (en b))
+    && forallb (fun qv => Bool.eqb (snd qv) ((4 * st a <=? fst qv) && (4 * en a >=? fst qv))) (o_ovq c)
     && and_spec eps (sand a b) cc (o_and_l c)
     && and_spec eps a (sand b cc) (o_and_r c)
     && seqb (o_or_l c) (sor eps (sor eps a b) cc)
